@@ -30,7 +30,8 @@ EXPLANATION = (
     " (R8) a linear search whose loop condition is `i < B && <no match>` and the later not-found test on i use the same bound expression B (SDAI_Enum / SDAI_LOGICAL ReadEnum and set_value, STEPcomplex::Replicate): otherwise an unknown token is silently read as the entry at the last index."
     " (R9) no branch is decided by a look-ahead variable (`c = in.peek()`) after something was consumed from the same stream and before the variable was assigned again (typestate over flag-consistent paths)."
     " (R10) every sprintf/snprintf of integer conversions into a local scratch array has room for the longest rendering of the conversion's type plus the terminator (21 bytes for %ld): no integer is written cut to a shorter, well-formed one."
-    " (R11) every literal reader with the (value, stream, descriptor, tokenList) signature skips leading white space itself (`in >> ws` is its first stream operation on every path): the skipws flag of the stream is left off by SDAI_String::STEPread.")
+    " (R11) every literal reader with the (value, stream, descriptor, tokenList) signature skips leading white space itself (`in >> ws` is its first stream operation on every path): the skipws flag of the stream is left off by SDAI_String::STEPread."
+    " (R12) in every scanner of string literals of the peek/get idiom, after an apostrophe other than the opening one has been consumed, another `peek() == '` test or an exhausted stream is seen on every path before the function returns (typestate): a doubled apostrophe at the start of a value is not the empty string.")
 
 READERS = {"ReadInteger": "integer", "ReadReal": "real", "ReadNumber": "number"}
 
